@@ -272,6 +272,22 @@ func C07(c *ev.Ctx) {
 				c.Violation("c07.error-shape", fmt.Sprintf("package %s: %s: [%s] %s", info.name, bad, ce.Category, ce.Message), map[string]string{"gen.go": info.src})
 			}
 		}
+		// the command prints every error the library returns (same position, same category), however many there are
+		if !crashed {
+			missing, firstMissing := 0, ""
+			for _, ce := range res.errs {
+				if !strings.Contains(gout.stderr, "  src: "+ce.GoSrcFile+"\n") && !strings.HasSuffix(gout.stderr, "  src: "+ce.GoSrcFile) {
+					missing++
+					if firstMissing == "" {
+						firstMissing = fmt.Sprintf("[%s] %s at %s", ce.Category, ce.Message, ce.GoSrcFile)
+					}
+				}
+			}
+			if missing > 0 {
+				c.Violation("c07.cli-omits-errors", fmt.Sprintf("package %s: the library reports %d conversion errors, the goose command does not print %d of them (first: %s): every offending declaration must be reported", info.name, len(res.errs), missing, firstMissing),
+					map[string]string{"gen.go": info.src, "stderr.txt": gout.stderr})
+			}
+		}
 		if res.nonConversion != "" {
 			c.Violation("c07.error-type", fmt.Sprintf("package %s: an error that is not a ConversionError: %s", info.name, res.nonConversion), map[string]string{"gen.go": info.src})
 		}
